@@ -72,6 +72,10 @@ def cases(d):
             cls["dyn"][1]["stmts"] = [["expr", ["bin", d.choice(["<=", "!="]), ["f", d.choice(["a", "b"])], ["lit", d.randint(2, 6)]]]] if d.chance(50) else []
         cls["dyn"][1]["stmts"].append(["foreach", "nl", "i", None,
                                        [["expr", ["bin", "!=", ["f", d.choice(["a", "b"])], ["el", "nl", ["iv", "i"], None]]]]])
+    if d.chance(25):
+        # composition: the first dynamic block references the second one (whose name sorts LATER: it is elaborated after
+        # the block that uses it)
+        cls["dyn"][0]["stmts"].insert(d.randint(0, len(cls["dyn"][0]["stmts"])), ["expr", ["dyn", "d1"]])
     ops = [["new", d.randint(0, 7)]]
     n = 1
     for _ in range(d.randint(2, 10)):
